@@ -2,7 +2,7 @@
    both generic wire values (Base/Sx.v).  A request is (op arg ...). *)
 From Coq Require Import ZArith List Bool.
 From Mistletoe Require Import Base.Sx Base.PyStr Model.SpanTokenizer Model.Tree Model.TreeWire
-  Model.HtmlRenderer Spec.HtmlSpec Model.LatexRenderer Spec.LatexSpec Model.Contrib.
+  Model.HtmlRenderer Spec.HtmlSpec Model.LatexRenderer Spec.LatexSpec Model.Contrib Model.DocLines.
 Import ListNotations.
 Local Open Scope Z_scope.
 
@@ -77,6 +77,15 @@ Definition op_toc (req : sx) : sx :=
        SxL (map sx_of_str (toc_lines hs))].
 Definition op_strip_tags (req : sx) : sx := sx_of_str (strip_tags (str_of_sx (sx_nth req 1))).
 
+(* ---- X-lines : (15 form text) ---- *)
+Definition op_lines (req : sx) : sx :=
+  let s := str_of_sx (sx_nth req 2) in
+  SxL (map sx_of_str (match z_of_sx (sx_nth req 1) with
+                      | 0 => doc_lines_of_str s
+                      | 1 => doc_lines_of_file s
+                      | _ => doc_lines_of_list (split_lf s)
+                      end)).
+
 Definition dispatch (req : sx) : sx :=
   match z_of_sx (sx_nth req 0) with
   | 16 => op_tokenize req
@@ -84,6 +93,7 @@ Definition dispatch (req : sx) : sx :=
   | 80 => op_str req
   | 81 => op_check_html req
   | 17 => op_latex req
+  | 15 => op_lines req
   | 18 => op_contrib req
   | 19 => op_toc req
   | 190 => op_strip_tags req
